@@ -324,7 +324,7 @@ def module_attr(I, st, mv, name):
             I.trust("runLog", "A7: armi.runLog calls are effect-free for the model")
             return bi("runLog." + name, lambda I, st, a, k: iter([(st, None)]))
         try:
-            return I.thaw(I.resolve_global(mv.info, name), st)
+            return I.thaw_global(I.resolve_global(mv.info, name), st)
         except KeyError:
             sub = extract.load_module(mv.info.name + "." + name)
             if sub is not None:
@@ -864,6 +864,11 @@ def str_method(I, st, s, name):
             ca = [conc(x) for x in a]
             ck = {kk: conc(v) for kk, v in k.items()}
         except Unsupported:
+            if name == "format" and isinstance(s, str):
+                r = _format_symbolic(s, a, k)
+                if r is not None:
+                    yield st, r
+                    return
             if name in ("format", "join"):
                 yield st, Opaque("str." + name)
                 return
@@ -880,6 +885,59 @@ def str_method(I, st, s, name):
         yield st, r
 
     return bi("str." + name, fn)
+
+
+def _format_symbolic(fmt, args, kwargs):
+    """fmt.format(*args, **kwargs) where some arguments are symbolic ints: -> FmtStr, or None (caller falls back to an
+    uninterpreted string) when a field is outside the modelled forms"""
+    import string as _string
+    from .values import FmtStr, fmt_int_field, build_fmtstr
+
+    parts = []
+    auto = 0
+    try:
+        fields = list(_string.Formatter().parse(fmt))
+    except ValueError:
+        return None
+    for lit, fname, spec, conv in fields:
+        if lit:
+            parts.append(("lit", lit))
+        if fname is None:
+            continue
+        if conv is not None or (spec and ("{" in spec)):
+            return None
+        if fname == "":
+            if auto is None:
+                return None
+            key, auto = auto, auto + 1
+        elif fname.isdigit():
+            if auto:
+                return None
+            key, auto = int(fname), None
+        elif fname.isidentifier():
+            key = fname
+        else:
+            return None
+        try:
+            v = args[key] if isinstance(key, int) else kwargs[key]
+        except (IndexError, KeyError):
+            return None
+        v = as_arith(v) if not isinstance(v, str) else v
+        if isinstance(v, str):
+            try:
+                parts.append(("lit", format(v, spec or "")))
+            except ValueError:
+                return None
+        elif isinstance(v, FmtStr) and not spec:
+            parts.extend(v.parts)
+        elif (isinstance(v, int) and not isinstance(v, bool)) or (is_z3(v) and z3.is_int(v)):
+            p = fmt_int_field(v, spec)
+            if p is None:
+                return None
+            parts.append(p)
+        else:
+            return None
+    return build_fmtstr(parts)
 
 
 # ============================================================================ builtin classes as callables
@@ -985,10 +1043,57 @@ def to_int(I, st, v):
         yield st, v
     elif is_z3(v) and z3.is_real(v):
         yield st, ops.z_trunc(v)
+    elif isinstance(v, _FmtStr()):
+        yield from _int_of_fmtstr(I, st, v)
     elif isinstance(v, Opaque):
         raise Unsupported("int() of an uninterpreted string")
     else:
         yield st, exc("TypeError", "int() argument")
+
+
+def _FmtStr():
+    from .values import FmtStr
+
+    return FmtStr
+
+
+def _int_of_fmtstr(I, st, v):
+    """int(s) for a formatted string made of decimal digits only: literal digit runs and NON-NEGATIVE int fields that
+    are zero-filled (or not padded).  The value is the decimal reading of the concatenation; the number of digits of a
+    field is max(width, number of digits of its value): case split on the magnitude (< 10, < 100, ... < 10**9)."""
+    for p in v.parts:
+        if p[0] == "lit" and not (p[1].isdigit() and p[1].isascii()):
+            raise Unsupported("int() of a formatted string with non-digit text")
+        if p[0] == "int" and p[3] != "0" and p[2] > 1:
+            raise Unsupported("int() of a formatted string with space padding")
+
+    def rec(s, i, val):
+        if i == len(v.parts):
+            yield s, val
+            return
+        p = v.parts[i]
+        if p[0] == "lit":
+            yield from rec(s, i + 1, val * (10 ** len(p[1])) + int(p[1]))
+            return
+        t, width = p[1], p[2]
+        for s1, nonneg in I.branch(s, t >= 0):
+            if not nonneg:
+                raise Unsupported("int() of a formatted string with a possibly negative field")
+            lo = 0
+            for nd in range(1, 11):
+                if nd == 10:
+                    if I.feasible(s1, t >= 10 ** 9):
+                        raise Unsupported("int() of a formatted string with a field >= 10**9")
+                    break
+                hi = 10 ** nd
+                cond = z3.And(t >= lo, t < hi) if lo else t < hi
+                if I.feasible(s1, cond):
+                    s2 = s1.fork()
+                    s2.pc.append(cond)
+                    yield from rec(s2, i + 1, val * (10 ** max(width, nd)) + t)
+                lo = hi
+
+    yield from rec(st, 0, 0)
 
 
 def to_float(I, st, v):
